@@ -72,6 +72,10 @@ class Ctx:
             if nm in FIELDS and base.k == "arg" and s.x.get("adt") == A("entries_struct"):
                 site = at
                 return self.field_value(nm, site, depth)
+            if s.x.get("adt") == A("aligned_buffer") and is_self_field(base, "buffer") and self._is_bound_capacity_field(nm):
+                # a field of the buffer set once, at allocation, to len / size_of::<EntryBound>()
+                self.extra_facts += [{"L": 1, "Q": -16}, {"Q": 16, 1: 15, "L": -1}]
+                return {"Q": 1}
             if s.x.get("adt") == A("entry_bound") and nm in ("key_start", "key_length", "data_length"):
                 return {{"key_start": "ks", "key_length": "kl", "data_length": "dl"}[nm]: 1}
             return None
@@ -168,6 +172,18 @@ class Ctx:
         if s.k == "arg" and s.x.get("ty") == "usize":
             return {"p_" + (s.x.get("name") or str(s.x["i"])): 1}     # an unsigned parameter: some value >= 0
         return None
+
+    def _is_bound_capacity_field(self, name):
+        F = self.F
+        ags = aggregates(F, A("aligned_buffer"))
+        if len(ags) != 1 or field_stores(F, A("aligned_buffer"), name) or field_stores(F, A("aligned_buffer"), "len"):
+            return False
+        b_, s_, rv = ags[0]
+        if name not in rv["fields"] or "len" not in rv["fields"]:
+            return False
+        e = agg_field_expr(b_, s_, rv, name).strip()
+        ln = agg_field_expr(b_, s_, rv, "len")
+        return e.k == "bin" and e.x["op"] == "Div" and e.a[0].strip().ident() == ln.strip().ident() and fold(e.a[1]) == 16
 
     def lin_fixed(self, e, depth):
         """linearise inside a pure helper whose field reads are the caller's current values"""
